@@ -24,8 +24,13 @@ def gen_script(rng, model, name, thorough):
             x = np.array(pos[-1]) + rng.normal(size=model.ndim()) * 0.05   # smooth path
         else:
             x = c05.random_position(rng, model, name)                    # large jump
-        pos.append(x)
         src = None if (k == 0 or rng.random() < 0.2) else int(rng.integers(0, k))   # interleaved "trajectories"
+        if name == "blocks" and src is not None and rng.random() < 0.5:
+            # through the symmetry-allowed crossing at x = 0: the state continued from has overlap EXACTLY zero with the new
+            # state of the same index (the two lowest states swap blocks)
+            x = np.array(pos[src])
+            x[0] = -x[0]
+        pos.append(x)
         # how the new point is requested: on the shared model object (trajectory idiom), or on the earlier result itself
         # (`elec = elec.update(x, elec)`, the idiom of mudslide/surface.py)
         how = "chained" if (src is not None and rng.random() < 0.35) else "model"
@@ -125,9 +130,9 @@ def run(ctx):
         "mudslide/models/electronics.py", ["update", "compute", "_compute_basis_states"])
     ctx.proofs()
     rng = ctx.rng
-    names = c05.REGISTERED + ["subotnik2d", "synth"]
+    names = c05.REGISTERED + ["subotnik2d", "synth", "blocks"]
     lines, keep = [], []
-    for i in range(ctx.budget(14, 400)):
+    for i in range(ctx.budget(26, 400)):
         name = names[i % len(names)]
         if name == "synth":
             spec = {"name": "synth", "seed": int(rng.integers(1, 10 ** 6)), "N": int(rng.integers(2, 7)), "n": int(rng.integers(1, 4))}
@@ -154,7 +159,7 @@ def run(ctx):
         if not ok:
             ctx.oracle_fail("update-script:" + name, "script", a, obs, req, text)
         # sign-fix correspondence on the last continued update of the script
-        if name not in ("shin-metiu",) and spec.get("representation") != "diabatic":
+        if name not in ("shin-metiu", "blocks") and spec.get("representation") != "diabatic":
             m2 = c05.make_model(spec)
             prev = m2.update(np.array(ops[0][1]))
             x = np.array(ops[-1][1])
